@@ -253,8 +253,10 @@ func (s *socket) onError(err error) {
 func (s *socket) schedulePing() {
 	s.pingIntervalTimer.Store(utils.SetTimeout(func() {
 		socket_log.Debug("writing ping packet - expecting pong within %dms", int64(s.server.Opts().PingTimeout()/time.Millisecond))
-		s.sendPacket(packet.PING, nil, nil, nil)
+		// the deadline is armed first: a pong that is accepted while the ping
+		// is still being handed to the transport must find (and clear) it
 		s.resetPingTimeout()
+		s.sendPacket(packet.PING, nil, nil, nil)
 	}, s.server.Opts().PingInterval()))
 }
 
